@@ -727,6 +727,14 @@ impl RegexVec {
     fn transition_inner(&mut self, state: StateID, b: u8, idx: usize) -> StateID {
         assert!(state.is_valid());
 
+        #[cfg(llguidance_verif)]
+        {
+            crate::verif_seam::sched_point("regexvec.transition_inner");
+            if crate::verif_seam::buggify("regexvec.fuel") {
+                // identical to a smaller step_lexer_fuel: the budget runs out here
+                self.fuel = 0;
+            }
+        }
         let mut vec_desc = vec![];
 
         // let d0 = self.deriv.num_deriv;
